@@ -73,3 +73,11 @@ Theorem C11_frame : forall g g' h,
   length (g_na g') = length (g_na g) /\ g_ea g' = g_ea g /\ g_N g' = g_N g /\ g_E g' = g_E g /\ g_L g' = g_L g.
 Proof. exact exec_longest_path_spec. Qed.
 Print Assumptions C11_frame.
+
+(* ---------- regenerated from the source on every run (translator): cycle breaking and layering does not read node identifiers, as its
+   model, which contains none, assumes ---------- *)
+From Coq Require Import String.
+From Autog Require Facts FactsChecks.
+Theorem C11_code_reads_no_identifier : FactsChecks.id_reads_allowed_in "internal/phase2/"%string = true /\ FactsChecks.id_reads_allowed_in "internal/phase1/"%string = true.
+Proof. vm_compute. repeat split; reflexivity. Qed.
+Print Assumptions C11_code_reads_no_identifier.
